@@ -10,7 +10,9 @@ PROP = Prop(
                # 'the fraction of training passwords at that level': the level the third pass books a password under
                (ol.EV + ':find_omen_level', None),
                # what the guesser generates from: the IP / CP tables it loads are the files' content
-               (oml.IO + ':_load_ngrams#ip', None), (oml.IO + ':_load_ngrams#cp', None)],
+               (oml.IO + ':_load_ngrams#ip', None), (oml.IO + ':_load_ngrams#cp', None),
+               # 'guesser accepts lengths >= n-gram size': the length table as numbers of transitions
+               (oml.IO + ':_load_length', None)],
     setup=ok.install,
     lemmas=lambda: ok.inner_zero.lemmas() + ol.okt_mono.lemmas() + oml.lemmas(),
     level='other',
